@@ -51,6 +51,11 @@ func collConfig(r *rng, mode string) (Config, genOpts) {
 		cfg.Concern = r.pick([]int{40, 40, 20})
 		cfg.LevelMaxSegs = 1 + r.intn(4)
 		cfg.LevelMult = 2 + r.intn(8)
+		if r.chance(1, 12) {
+			// a factor below 2 must behave as 2 (and must not hang the level arithmetic): leveled
+			// compaction allowed, one segment per level, so that the arithmetic runs in every round
+			cfg.LevelMult, cfg.Concern, cfg.LevelMaxSegs = 1, 1, 1
+		}
 		// files of a few small segments are mostly page padding, which calcPartialCompactionStart
 		// counts as fragmentation: only a threshold of 1.0 lets leveled (partial) compaction happen there
 		switch r.intn(5) {
